@@ -24,6 +24,9 @@ def goenv():
     env["GOPROXY"] = "off"
     env.pop("GOTOOLCHAIN", None) if env.get("GOTOOLCHAIN") == "local" else None
     env.pop("GOSUMDB", None) if env.get("GOSUMDB") == "off" else None
+    # the repository's test binaries pull in the keyring, which auto-launches a dbus-daemon per run
+    # when no session bus address is set; point it at nothing so that replays leave no process behind
+    env.setdefault("DBUS_SESSION_BUS_ADDRESS", "unix:path=/nonexistent")
     return env
 
 
